@@ -38,14 +38,14 @@ def showSet (r : SetOut) : String :=
   "{" ++ ";".intercalate (r.msgs.map showMsg) ++ "|" ++ showEnd r.err ++ "}"
 
 /-- gzip table: list of (input, result) -/
-abbrev GzTab := List (Option (List UInt8) × Except Err (List UInt8))
+abbrev GzTab := List (Option (List UInt8) × Except String (List UInt8))
 
 def gzOf (t : GzTab) : Gz := fun v =>
   match t.find? (fun e => e.1 == v) with
   | some e => e.2
-  | none => .error (.external "MISSING-GZ-ENTRY")
+  | none => .error "MISSING-GZ-ENTRY"
 
-def parseGz (tok : String) : Option (Option (List UInt8) × Except Err (List UInt8)) :=
+def parseGz (tok : String) : Option (Option (List UInt8) × Except String (List UInt8)) :=
   match tok.splitOn ":" with
   | ["g", i, "o", o] => do
     let i ← parseOptHex i
@@ -53,7 +53,7 @@ def parseGz (tok : String) : Option (Option (List UInt8) × Except Err (List UIn
     pure (i, .ok o)
   | ["g", i, "e", cls] => do
     let i ← parseOptHex i
-    pure (i, .error (.external cls))
+    pure (i, .error cls)
   | _ => none
 
 /-- canonical text of a value; message sets are iterated here (cost and gz bytes are summed) -/
